@@ -15,13 +15,24 @@ the model validates that it is a permutation of the right set, the theorems hold
 
 User code is represented by fault scripts (`Blk.f…` flags: the hook raises) and durations.
 The model mirrors the code WITH the repairs patches/C08-run-tasks-cancel.diff (`_run_tasks`
-cancels what it did not await to the end), patches/C04-no-timer-after-stop.diff (a stopped
+cancels what it did not await to the end), patches/C08-run-tasks-awaits-cancelled.diff (… and
+waits, bounded, until the tasks it cancelled have ended), patches/C08-shutdown-shields-simtask.diff
+(a cancellation of the caller of `shutdown()` is not forwarded to the simulation task), patches/C04-no-timer-after-stop.diff (a stopped
 FSM arms no timer), patches/C08-fsm-timers-from-start.diff (nor does an FSM that was never
 started), patches/C08-wait-init-helper.diff (`wait_init` cancels its helper).
 
 One behaviour of the code that contradicts the property is modelled as it is (known finding,
 see known_findings.json): an OutputAsync block that was never initialised loses its stop_data
 (`outaDelivers`).
+
+Two further behaviours that contradict the property are NOT mirrored, the model says what the
+property demands (the harness' oracle reports them as known findings, which covers the divergence
+on those scenarios): a `stop_async` that ends with a CancelledError of its own is taken by
+`_run_tasks` for a cancellation of the simulator (model: an error of that block's clean-up like
+any other, `stopOwnCancel`); the main task of a block whose `start()` raised AFTER
+`AddonMainTask.start()` is never stopped (model: a start() fault is a start() fault).  The third,
+an OutputFunc receiving the on_success event of another OutputFunc's stop_data after its own
+stop(), IS mirrored (`chain`).
 
 Time: natural numbers (the harness uses milliseconds of the virtual clock); instant 0 is the
 moment `run_forever` yields after the `start()` loop.
@@ -56,6 +67,7 @@ structure Blk where
   fHandler : Bool := false
   fStop : Bool := false
   fStopAsync : Bool := false
+  stopOwnCancel : Bool := false     -- stop_async ends with a CancelledError of its own (a worker it cancelled and awaits)
   fRestoreCalc : Bool := false      -- timer block: calc_output raises / returns UNDEF on the restored state
   mainFailAt : Option Nat := none   -- the main task raises / returns at this instant
   -- configuration
@@ -66,6 +78,7 @@ structure Blk where
   hasInitAsync : Bool := false
   initDur : Nat := 0
   initTimeout : Nat := 0
+  initCancelDur : Nat := 0          -- time init_async needs to finish once cancelled (await in a `finally`)
   cancelDur : Nat := 0              -- time the main task needs to finish once cancelled
   stopDur : Nat := 0                -- own asynchronous clean-up / duration of the output coroutine
   stopTimeout : Nat := 1
@@ -91,6 +104,24 @@ def CauseKind.isInner : CauseKind → Bool
   | .innerShutdown | .innerAbort => true
   | _ => false
 
+/-- a second termination cause that arrives while the clean-up is in progress -/
+inductive Second where
+  | callerCancel    -- the task that awaits `shutdown()` is cancelled (directly, or by `run()` because another
+                    -- supporting coroutine has ended)
+  | supportEnd | supportFail    -- a (further) supporting coroutine of `run()` returns / raises
+  | abort | sigterm | shutdown  -- `abort()`, SIGTERM, another `shutdown()` call
+  deriving DecidableEq, Repr, Inhabited
+
+/-- does the second cause cancel the simulation task (and with it the clean-up in progress)?  Never:
+    `abort()` only records the FIRST error and cancels the task then; the SIGTERM handler and a second
+    `shutdown()` go through `abort()`; `run()` cancels the supporting tasks only and calls `abort()`;
+    `shutdown()` awaits the simulation task through `asyncio.shield`
+    (patches/C08-shutdown-shields-simtask.diff), so the cancellation of its caller stops there -/
+def Second.cancelsSimtask : Second → Bool
+  | .callerCancel => false
+  | .supportEnd | .supportFail => false
+  | .abort | .sigterm | .shutdown => false
+
 structure Cause where
   kind : CauseKind := .shutdown
   before : Bool := false        -- abort() called before run_forever was started
@@ -99,6 +130,7 @@ structure Cause where
   raiseAfter : Bool := false    -- inner causes: an ordinary exception (the next evaluated CBlock
                                 -- raises) ends the try block before the task awaits anything
   late : Bool := false          -- a further request arrives during the clean-up (abort() ignores it)
+  second : Option (Second × Nat) := none   -- a SECOND termination cause, so many ms after the first
   deriving Repr, Inhabited
 
 /-- what the persistent storage does when the simulation is being stopped -/
@@ -128,6 +160,7 @@ structure Cfg where
 
 inductive Res where
   | ok | err | timeout | cancelled
+  | pending     -- cancelled, but still running when `_run_tasks` gave up waiting for it
   deriving DecidableEq, Repr, Inhabited
 
 inductive Ev where
@@ -155,6 +188,8 @@ structure Job where
   dur : Option Nat      -- instant of completion (relative to the creation), none = never
   timeout : Nat
   ok : Bool             -- returns (true) or raises (false) when it completes
+  cdur : Nat := 0       -- time the task needs to finish once it is cancelled (an `await` in a `finally`
+                        -- clause, an inner task that is awaited)
   deriving Repr, Inhabited
 
 structure JobEnd where
@@ -165,11 +200,24 @@ structure JobEnd where
 
 def Job.fin (j : Job) : Res := if j.ok then .ok else .err
 
+/-- a task cancelled at `l` by a cancelled `_run_tasks`, which then waits for it until `T`
+    (`asyncio.wait(tasks, timeout=<longest timeout> - elapsed)`): it ends at `l + cdur`, or is still
+    pending when the wait gives up -/
+def Job.cancelEnd (l T : Nat) (j : Job) : JobEnd :=
+  if l + j.cdur ≤ max l T then ⟨j.k, l + j.cdur, .cancelled⟩ else ⟨j.k, max l T, .pending⟩
+
 /-- what became of a job that is not the awaited one when `_run_tasks` is cancelled at `l` -/
-def Job.atCancel (l : Nat) (j : Job) : JobEnd :=
+def Job.atCancel (l T : Nat) (j : Job) : JobEnd :=
   match j.dur with
-  | some d => if d ≤ l then ⟨j.k, d, j.fin⟩ else ⟨j.k, l, .cancelled⟩
-  | none => ⟨j.k, l, .cancelled⟩
+  | some d => if d ≤ l then ⟨j.k, d, j.fin⟩ else j.cancelEnd l T
+  | none => j.cancelEnd l T
+
+/-- the instant the bounded wait for the cancelled tasks returns: when the last of them has ended
+    (a pending one "ends" at the bound) -/
+def lastEnd (l : Nat) (es : List JobEnd) : Nat := es.foldl (fun m e => max m e.time) l
+
+/-- the longest time-out = the time-out of the first of the sorted jobs (`btt_list[0][2]`) -/
+def deadline (js : List Job) : Nat := (js.head?.map (·.timeout)).getD 0
 
 /-- `sorted(btt_list, key=timeout, reverse=True)` – stable -/
 def sortJobs (js : List Job) : List Job := js.mergeSort (fun a b => b.timeout ≤ a.timeout)
@@ -195,24 +243,31 @@ def cancelledBefore (limit : Option Nat) (w : Nat) : Option Nat :=
 
 /--
 The loop of `_run_tasks` over the sorted jobs; `now` = time elapsed since the tasks were
-created; `limit` = instant at which the awaiting task itself is cancelled (if ever).
+created; `limit` = instant at which the awaiting task itself is cancelled (if ever); `T` = the
+longest time-out (`deadline` of the whole sorted list).
 Returns the fate of every job, the instant the loop ended and whether it was cancelled.
 -/
-def awaitJobs (limit : Option Nat) : Nat → List Job → List JobEnd × Nat × Bool
+def awaitJobs (limit : Option Nat) (T : Nat) : Nat → List Job → List JobEnd × Nat × Bool
   | now, [] => ([], now, false)
   | now, j :: js =>
     if j.doneBy now then
-      let r := awaitJobs limit now js
+      let r := awaitJobs limit T now js
       (⟨j.k, j.dur.getD now, j.fin⟩ :: r.1, r.2)
     else
       match cancelledBefore limit (j.wake now).1 with
       | some l =>
-        -- CancelledError in wait_for: the awaited task is cancelled with it; the `finally`
-        -- clause cancels every other task that is not done
-        (⟨j.k, l, .cancelled⟩ :: js.map (Job.atCancel l), l, true)
+        -- CancelledError in wait_for: the awaited task is cancelled with it and awaited by asyncio
+        -- until it has ended (`l + cdur`); then the handler cancels every other task that is not
+        -- done and (patches/C08-run-tasks-awaits-cancelled.diff) waits for them, bounded by `T`
+        let others := js.map (Job.atCancel (l + j.cdur) T)
+        (⟨j.k, l + j.cdur, .cancelled⟩ :: others, lastEnd (l + j.cdur) others, true)
       | none =>
-        let r := awaitJobs limit (j.wake now).1 js
+        let r := awaitJobs limit T (j.wake now).1 js
         (⟨j.k, (j.wake now).1, (j.wake now).2⟩ :: r.1, r.2)
+
+/-- `_run_tasks` on freshly created tasks -/
+def runTasks (limit : Option Nat) (js : List Job) : List JobEnd × Nat × Bool :=
+  awaitJobs limit (deadline (sortJobs js)) 0 (sortJobs js)
 
 /-! ### start -/
 
@@ -246,7 +301,7 @@ def Blk.wantsInitAsync (b : Blk) : Bool :=
 
 def initJobs (bs : List Blk) : List Job :=
   (enum bs).filterMap fun (k, b) =>
-    if b.wantsInitAsync then some ⟨k, some b.initDur, b.initTimeout, !b.fInitAsync⟩ else none
+    if b.wantsInitAsync then some ⟨k, some b.initDur, b.initTimeout, !b.fInitAsync, b.initCancelDur⟩ else none
 
 /-- second synchronous pass over the SBlocks: the blocks whose `init_sblock` completed and
     whether one raised -/
@@ -278,13 +333,21 @@ def arm (bs : List Blk) (s : CState) (j : Nat) : CState :=
     { s with timers := j :: s.timers.filter (· != j) }
   else s
 
+/-- the on_success event of OutputFunc `k` when its destination is another OutputFunc: that block's
+    function is called with the result -- whether or not the destination was started or is stopped
+    already (known finding C08-outputfunc-event-after-stop) -/
+def chain (bs : List Blk) (k : Nat) : List Ev :=
+  match (blk bs k).onSuccess with
+  | some j => if (blk bs j).kind == .outf then [Ev.out j false] else []
+  | none => []
+
 /-- `stop()` of one block of the synchronous set -/
 def stopSync (bs : List Blk) (s : CState) (k : Nat) : CState × List Ev :=
   let b := blk bs k
   -- OutputFunc.stop: the function is called with stop_data, on_success events are sent
   let s1 := if b.kind == .outf && b.stopData then
       (match b.onSuccess with | some j => arm bs s j | none => s) else s
-  let evs := if b.kind == .outf && b.stopData then [Ev.stop k, Ev.out k true] else [Ev.stop k]
+  let evs := if b.kind == .outf && b.stopData then [Ev.stop k, Ev.out k true] ++ chain bs k else [Ev.stop k]
   -- FSM.stop: _stop_timer, no timers from now on
   ({ timers := s1.timers.filter (· != k), stopped := k :: s1.stopped, started := s1.started }, evs)
 
@@ -305,12 +368,12 @@ def stopJob (bs : List Blk) (failed : List Nat) (inited : List Nat) (k : Nat) : 
   let b := blk bs k
   if b.kind == .outa then
     -- awaits the control task, which runs the coroutine for stop_data and meets the sentinel
-    if b.stopData && !inited.contains k then ⟨k, some 0, b.stopTimeout, false⟩
-    else ⟨k, some (if b.stopData then b.stopDur else 0), b.stopTimeout, true⟩
+    if b.stopData && !inited.contains k then ⟨k, some 0, b.stopTimeout, false, 0⟩
+    else ⟨k, some (if b.stopData then b.stopDur else 0), b.stopTimeout, true, 0⟩
   else if failed.contains k then
     -- `await self._mtask` re-raises the main task's exception
-    ⟨k, some 0, b.stopTimeout, false⟩
-  else ⟨k, some (b.cancelDur + b.stopDur), b.stopTimeout, !b.fStopAsync⟩
+    ⟨k, some 0, b.stopTimeout, false, 0⟩
+  else ⟨k, some (b.cancelDur + b.stopDur), b.stopTimeout, !(b.fStopAsync || b.stopOwnCancel), 0⟩
 
 def immediate (bs : List Blk) (failed : List Nat) (inited : List Nat) (k : Nat) : Bool :=
   ((blk bs k).kind == .outa || (blk bs k).kind == .aplain || failed.contains k)
@@ -320,7 +383,11 @@ def immediate (bs : List Blk) (failed : List Nat) (inited : List Nat) (k : Nat) 
     CancelledError of the time-out (`except CancelledError: pass` around the awaited control
     task, which is cancelled with it) and returns normally -/
 def seenRes (bs : List Blk) (e : JobEnd) : Res :=
-  if (blk bs e.k).kind == .outa && e.res == .timeout then .ok else e.res
+  if (blk bs e.k).kind == .outa && e.res == .timeout then .ok
+  -- a CancelledError of its own is what the coroutine ends with; for the clean-up it is an error of
+  -- that block like any other (see the header: the code takes it for a cancellation of the simulator)
+  else if (blk bs e.k).stopOwnCancel && e.res == .err then .cancelled
+  else e.res
 
 def sortEnds (l : List JobEnd) : List JobEnd := l.mergeSort (fun a b => a.time ≤ b.time)
 
@@ -341,7 +408,7 @@ def stopSblocks (bs : List Blk) (failed : List Nat) (inited : List Nat) (started
   let sabs := oa.flatMap fun k =>
     if immediate bs failed inited k then [Ev.sab k, Ev.sae k (stopJob bs failed inited k).fin]
     else [Ev.sab k]
-  let r := awaitJobs none 0 (sortJobs (oa.map (stopJob bs failed inited)))
+  let r := runTasks none (oa.map (stopJob bs failed inited))
   let saes := (sortEnds (r.1.filter fun e => !immediate bs failed inited e.k)).map
     fun e => Ev.sae e.k (seenRes bs e)
   let s0 : CState := { timers := timers0, stopped := oa, started := started }
@@ -458,7 +525,7 @@ def plan (c : Cfg) : Plan :=
     | none => (c.cause.time, c.cause.kind.isError, true)
   let tX := ext.1
   -- initialisation
-  let ir := awaitJobs (some tX) 0 (sortJobs (initJobs bs))
+  let ir := runTasks (some tX) (initJobs bs)
   let asyncOk : Nat → Bool := fun k => ir.1.any fun e => e.k == k && e.res == .ok
   let s2 := sync2 asyncOk (enum bs)
   let allInit := (enum bs).all fun (k, b) => b.initialized asyncOk k
@@ -467,8 +534,9 @@ def plan (c : Cfg) : Plan :=
   let phase := phaseOf startFailed (tX == 0) ir.2.2 (s2.2 || !allInit) calcFails
   let tT : Nat := match phase with
     | .startFailed | .afterStart | .notStarted => 0
-    | .asyncInit | .running => tX
-    | .initFailed | .evalFailed => ir.2.1
+    | .running => tX
+    -- a cancelled `_run_tasks` has waited for the tasks it cancelled
+    | .asyncInit | .initFailed | .evalFailed => ir.2.1
   let isErr : Bool := match phase with
     | .startFailed | .initFailed | .evalFailed => true
     | _ => ext.2.1
@@ -486,7 +554,7 @@ def plan (c : Cfg) : Plan :=
   let initDone := phase == .evalFailed || phase == .running
   { startEvs := sl.1, started := started, phase := phase, termTime := tT, isError := isErr
     initRes := initRes, failed := failed, inited := pass2
-    puts := putBlocks.map (Ev.out · false), timers := sRun.timers
+    puts := putBlocks.flatMap (fun k => Ev.out k false :: chain bs k), timers := sRun.timers
     helper := c.waitInit && !initDone
     initEnd := if initDone then some ir.2.1 else none
     byCause := ext.2.2
@@ -588,7 +656,7 @@ def finish (c : Cfg) (p0 : Plan) : Option Result :=
   let bs := c.blocks
   let p := consumePending p0
   if !(permOf c.oa (setA bs p.started) && permOf c.os (setS bs p.started)) then none
-  else if p.pendingCancel && !c.oa.isEmpty then
+  else if (p.pendingCancel || (c.cause.second.any fun x => x.1.cancelsSimtask)) && !c.oa.isEmpty then
     -- a cancellation that were still pending now would end `_stop_sblocks` at its first await:
     -- after the stop() calls of the asynchronous set, nothing else
     some {
